@@ -146,7 +146,7 @@ class FitnessProbe:
             v = self.values[prog_value(ph.prog) % len(self.values)]
         self.k += 1
         self.events.append({"e": "ff", "tok": ph.token, "ret": list(v)})
-        return float(v[0]) if self.single else [float(x) for x in v]
+        return fv(v[0]) if self.single else [fv(x) for x in v]
 
 
 class Stalled(Exception):
@@ -228,12 +228,27 @@ class Ids:
         return self.map[k]
 
 
+INF_TOKEN = 10 ** 9     # stands for float("inf") in histories and events (order is preserved: every other value is small)
+
+
+def fv(x):
+    """history value -> the float the fitness function returns"""
+    return float("inf") if x == INF_TOKEN else float("-inf") if x == -INF_TOKEN else float(x)
+
+
+def iv(c):
+    """a fitness number -> the integer used in events"""
+    c = float(c)
+    if c == float("inf"):
+        return INF_TOKEN
+    if c == float("-inf"):
+        return -INF_TOKEN
+    assert c.is_integer(), c
+    return int(c)
+
+
 def icomps(comps):
-    out = []
-    for c in comps:
-        assert float(c).is_integer(), c
-        out.append(int(c))
-    return out
+    return [iv(c) for c in comps]
 
 
 class Observer(SearchRecorder):
@@ -249,7 +264,6 @@ class Observer(SearchRecorder):
         else:
             front = [self.ids.of(i) for i in tracker.get_best_individuals()]
         agg = f.maximizing_aggregate
-        assert float(agg).is_integer(), agg
         self.events.append({"e": "reg", "ind": self.ids.of(individual), "tok": individual.get_phenotype().token,
-                            "comps": icomps(f.fitness_components), "agg": int(agg), "isbest": bool(is_best),
+                            "comps": icomps(f.fitness_components), "agg": iv(agg), "isbest": bool(is_best),
                             "best": best, "front": front})
